@@ -46,6 +46,8 @@ class AlignmentTagReadGrouper(AbstractReadGrouper):
             logger.warning("Tag %s is not present for read %s, skipping" % (self.tag, alignment.query_name))
             self.read_groups.add(self.default_group_id)
             return self.default_group_id
+        # numeric tags (e.g. XI:i:5) are returned as numbers, group ids are strings
+        tag_value = str(tag_value)
         self.read_groups.add(tag_value)
         return tag_value
 
